@@ -5,51 +5,61 @@ namespace CueVerif.ModCache
 theorem inv_lMark {n s t c s' o} (h : Inv n s) (hp : s.pc t = .lMark)
     (hn : next n s t c = some (s', o)) : Inv n s' := by
   open_next
-  all_goals step
+  all_goals step_pre
+  all_goals step_main
 
 theorem inv_uCheck {n s t c s' o} (h : Inv n s) (hp : s.pc t = .uCheck)
     (hn : next n s t c = some (s', o)) : Inv n s' := by
   open_next
-  all_goals step
+  all_goals step_pre
+  all_goals step_main
 
 theorem inv_uMkdir {n s t c s' o} (h : Inv n s) (hp : s.pc t = .uMkdir)
     (hn : next n s t c = some (s', o)) : Inv n s' := by
   open_next
-  all_goals step
+  all_goals step_pre
+  all_goals step_main
 
 theorem inv_uCreate {n s t c s' o k} (h : Inv n s) (hp : s.pc t = .uCreate k)
     (hn : next n s t c = some (s', o)) : Inv n s' := by
   open_next
-  all_goals step
+  all_goals step_pre
+  all_goals step_main
 
 theorem inv_uWrite {n s t c s' o k} (h : Inv n s) (hp : s.pc t = .uWrite k)
     (hn : next n s t c = some (s', o)) : Inv n s' := by
   open_next
-  all_goals step
+  all_goals step_pre
+  all_goals step_main
 
 theorem inv_fUnmark {n s t c s' o} (h : Inv n s) (hp : s.pc t = .fUnmark)
     (hn : next n s t c = some (s', o)) : Inv n s' := by
   open_next
-  all_goals step
+  all_goals step_pre
+  all_goals step_main
 
 theorem inv_fReadOnly {n s t c s' o} (h : Inv n s) (hp : s.pc t = .fReadOnly)
     (hn : next n s t c = some (s', o)) : Inv n s' := by
   open_next
-  all_goals step
+  all_goals step_pre
+  all_goals step_main
 
 theorem inv_fUnlock {n s t c s' o k} (h : Inv n s) (hp : s.pc t = .fUnlock k)
     (hn : next n s t c = some (s', o)) : Inv n s' := by
   open_next
-  all_goals step
+  all_goals step_pre
+  all_goals step_main
 
 theorem inv_eRmAll {n s t c s' o} (h : Inv n s) (hp : s.pc t = .eRmAll)
     (hn : next n s t c = some (s', o)) : Inv n s' := by
   open_next
-  all_goals step
+  all_goals step_pre
+  all_goals step_main
 
 theorem inv_eUnmark {n s t c s' o} (h : Inv n s) (hp : s.pc t = .eUnmark)
     (hn : next n s t c = some (s', o)) : Inv n s' := by
   open_next
-  all_goals step
+  all_goals step_pre
+  all_goals step_main
 
 end CueVerif.ModCache
